@@ -85,6 +85,23 @@ def main():
     def note(cfg, q):
         key = '%s/%s/%s' % (cfg['order'], 'QH' if q.helicity != 0 else 'QA', 'asym' if q.lasym else 'sym')
         dist[key] = dist.get(key, 0) + 1
+    # distilled inputs first: a well-converged axis whose last harmonics are of the order of 1e-13, and the shared corpus, under moderate AND extreme changes of
+    # unit (an absolute tolerance anywhere in the construction is crossed by one of them; the pinned tree obeys the law to 1e-6 for all of these)
+    fixed = [dict(rc=[1.0] + [0.6 * 0.07 ** k for k in range(1, 12)], zs=[0.0] + [0.55 * 0.07 ** k for k in range(1, 12)], nfp=3, etabar=0.9, order='r2',
+                  B2c=0.3, p2=-2.0e4, I2=0.1, B0=1.1, nphi=31)] + [c_ for c_, _ in corpus_objects(histories=False)]
+    for cfg in fixed:
+        if res['violations'] or (a.mode == 'search' and time.time() - t0 > a.budget / 2):
+            break
+        for lam, c in ((1e-4, 1.0), (1.0, 1e5), (3e3, 1e-3), (0.2, 1.0)):
+            try:
+                v, n = predict(cfg, lam, c)
+            except Exception:
+                continue
+            res['predictions_checked'] += n
+            res['violations'] += v
+            dist['corpus'] = dist.get('corpus', 0) + 1
+            if v:
+                break
     if a.mode == 'check':
         orders = ['r1', 'r2', 'r3']
         for i in range(a.n):
